@@ -56,6 +56,42 @@ CHECKS = {
              "debug_symbols(); the marker tag is the constant false; the (kind, text) set of the markers equals the tracked calls of the program text; distinct sites have distinct CMRs. "
              "Value reconstruction of dbg! arguments is not claimed.",
         note=TRUST_E1),
+
+    "C06": dict(
+        engine="kani", category="model_checking", ref="DESIGN.md 3, 5 (C06)",
+        technique="bounded model checking of the real Rust kernels with Kani/CBMC (SAT): panic-freedom and functional assertions over symbolic digit strings, types, numbers and spans",
+        text="RESTRICTED SCOPE: panic-freedom (Kani checks unwrap/expect/index/overflow/unreachable by default) of the literal, number and span kernels that every text entry point funnels into - "
+             "parse_decimal / parse_binary / parse_hexadecimal at EVERY integer type, U256::from_str, Pow2Usize / NonZeroPow2Usize constructors, Span::to_slice on the spans pest can produce - for all digit strings "
+             "/ numbers / 3-byte files within the stated length bounds. The pest-generated parser, parse.rs tree construction, ast.rs, JSON/module parsing, error rendering and stack depth are NOT encodable and are outside the claim.",
+        note="Trusted: Kani 0.68 / CBMC 6.11 and Kani's models of std; ASCII stubs for str::chars (sound because the grammar only lets ASCII digits through); unwinding assertions on; every harness has a reachability witness (kani::cover!)."),
+    "C07": dict(
+        engine="simsym", category="translation_validation", ref="DESIGN.md 3, 5 (C07)",
+        technique="Kani/CBMC bounded model checking of the layout step (as_node) + SMT (z3 QF_UFBV) proof that every admissible cast preserves all bits + enumeration of cast admissibility and type structures against the book's casting table",
+        text="(1) Kani: the only place where the balanced-tree / partition shape is decided (BTreeSlice::as_node, Partition::as_node) equals the documented rule for EVERY size n<=300 / every list bound<=64 and length (one inductive step covers all reachable trees). "
+             "(2) the Simplicity structure the library assigns to 85 types (arrays to 100, tuples to 13, list bounds to 512) equals the book's casting table; 255 sampled values have the documented bits. "
+             "(3) for ALL 3600 ordered pairs of a 60-type family a cast is accepted exactly when the documented structures are equal, and for each accepted cast z3 proves all bits are preserved. The reconstruct round trip is only sampled (Kani ICE).",
+        note=TRUST_E1 + " Kani part: Kani 0.68 / CBMC 6.11, unwinding assertions on, reachability witnesses."),
+    "C11": dict(
+        engine="simsym", category="model_checking", ref="DESIGN.md 3, 5 (C11)",
+        technique="(a) Kani/CBMC bounded model checking of the literal parsers over ALL digit strings of the stated lengths; (b) SMT-based translation validation of `let x: T = <literal>` programs",
+        text="(a) Kani: parse_decimal accepts a digit string iff its value fits and returns exactly that value - all strings of the three lengths around each width's maximum (u1..u64; u128 thorough); parse_binary: all bit strings of length 1..32 (64 thorough) against every type; "
+             "parse_hexadecimal: all strings of 0..4 digits (8,16 thorough) against every type, big-endian byte conversion for every byte length; U256::from_str up to 5 digits; digit-less literals rejected everywhere; every printed u8 parses back. "
+             "(b) E1: ~900 literal programs (widths 1..256 x boundary values x dec/bin/hex x underscore placements, leading zeros, upper case, byte arrays up to 64 bytes): z3 proves the compiled program succeeds iff the quantified witness equals the literal's value; ~130 ill-formed literals must be rejected. This part covers the grammar rules and parse.rs's underscore stripping.",
+        note=TRUST_E1 + " Kani part: Kani's std models, ASCII stubs for str::chars in the binary and u256 harnesses."),
+    "C12": dict(
+        engine="simsym", category="translation_validation", ref="DESIGN.md 2, 5 (C12)",
+        technique="SMT-based translation validation: instantiated template and literal-substituted text both proved equivalent to one source-level specification for all witnesses (z3 QF_UFBV)",
+        text="For 23 template shapes (parameters of 18 types, in main and function bodies, one name twice, four parameters, loop context + body, none) and seeded argument values: the program `instantiate(args)` compiles to and the text with every "
+             "`param::NAME` written literally are BOTH proved equal to the source semantics for all witnesses, hence to each other; parameters() is compared with the occurrences in the text; missing and mistyped (same width, different type) arguments must be refused, extra ones ignored. "
+             "Arguments::is_consistent over ALL maps is not encodable; only the enumerated maps are exercised.",
+        note=TRUST_E1),
+    "C17": dict(
+        engine="pegsmt", category="model_checking", ref="DESIGN.md 4, 5 (C17)",
+        technique="PEG matching of the real grammar file encoded as SMT constraints over a symbolic identifier (z3), one query per naming role, models replayed through the real parser; plus SMT-based translation validation of renamed / re-laid-out programs",
+        text="Lexical clause: /repo/src/minimal.pest is read at check time and its PEG semantics (ordered choice, greedy repetition, look-aheads, atomic rules, implicit whitespace) encoded over a symbolic identifier of length <= 10 (16 thorough); for 14 naming roles "
+             "(variable use/definition, call, function/alias/parameter definition, type position, match arm, witness/param name, statement start) z3 shows that NO identifier other than the 62 exactly-reserved words is rejected. "
+             "Renaming clause: 220 (1500) programs of F01/F10 with all user names replaced by 130 boundary identifiers (reserved word + letter/digit/underscore, case variants), aliases introduced, right-hand sides parenthesised, comments/CR/LF/tabs inserted are accepted and proved equivalent to the source semantics.",
+        note=TRUST_E1 + " E3: the PEG encoding is validated by replaying every solver model through pest; the reserved-word list delimits the claim."),
 }
 
 NOT_APPLICABLE = {
